@@ -818,6 +818,15 @@ theorem C05_input_preserved_readComment (cm : Bool) (iters fuel : Nat) (s : IS) 
 theorem C05_input_preserved_readTokenSeparator (cm : Bool) (iters fuel : Nat) (s : IS) (r : LoopRes)
     (h : readTokenSeparator cm iters fuel s = .ok r) : r.s.whole = s.whole := readTokenSeparator_keeps cm iters fuel s r h
 
+theorem C05_input_preserved_findHeaderSection (cm : Bool) (iters n : Nat) (ex : ExitCond) (fuel : Nat) (s : IS) (r : LoopRes)
+    (h : findHeaderSectionWith cm iters n ex fuel s = .ok r) : r.s.whole = s.whole := findHeaderSection_keeps cm iters n ex fuel s r h
+
+theorem C05_input_preserved_getKeyword (delims : List Byte) (fuel : Nat) (s : IS) (r : LoopRes)
+    (h : getKeyword delims fuel s = .ok r) : r.s.whole = s.whole := getKeyword_keeps delims fuel s r h
+
+theorem C05_input_preserved_findDataSection (cm : Bool) (iters fuel : Nat) (s : IS) (r : LoopRes)
+    (h : findDataSection cm iters fuel s = .ok r) : r.s.whole = s.whole := findDataSection_keeps cm iters fuel s r h
+
 /-- the `);` recovery scan in any of its three shapes (`in.clear()` included) -/
 theorem C05_input_preserved_recoveryScan (stay quotes pb : Bool) (fuel : Nat) (s : IS) (c : Byte) (r : LoopRes)
     (h : recoveryScan stay quotes pb fuel s c = .ok r) : r.s.whole = s.whole := recoveryScan_keeps stay quotes pb fuel c s r h
